@@ -545,4 +545,70 @@ def evalOp : Op → XR → XR → Option XR
   | .xor, a, b => some (boolXR ((a != 0) != (b != 0)))
   | _, _, _ => none
 
+/-! ### Mixed (Python scalar, array) calls across array dtypes
+
+  `ops.max(s, arr)` / `ops.min(arr, s)` with a Python number `s` and an array whose dtype is
+  int64 or bool are registered as `np.clip(arr, s, None)` / `np.clip(arr, None, s)`: numpy
+  promotes the array ELEMENTS to the common (float) type — an exact embedding of ℤ / Bool into the
+  extended rationals — and compares there.  `mixedMax` / `mixedMin` are that composition.
+  `…Cast` is the other composition one could write (lift the scalar INTO the array's dtype first,
+  `np.full_like(arr, s, shape=())`, then `np.maximum`): it is the scalar op only when the scalar is
+  representable in the dtype (Props/C15/Dtype.lean). -/
+
+inductive DType where
+  | f64 | i64 | bool
+  deriving DecidableEq, Repr, Inhabited
+
+/-- a stored array element: an exact rational-or-special (f64), an integer, a boolean -/
+inductive Elem where
+  | f (x : XR) | i (n : Int) | b (v : Bool)
+  deriving DecidableEq, Repr, Inhabited
+
+def Elem.dtype : Elem → DType | .f _ => .f64 | .i _ => .i64 | .b _ => .bool
+
+/-- numpy's value-preserving promotion of an element to the float carrier -/
+def embed : Elem → XR
+  | .f x => x
+  | .i n => XR.ofInt n
+  | .b v => boolXR v
+
+/-- `np.clip(arr, s, None)` elementwise: promote the element, then maximum -/
+def mixedMax (s : XR) (e : Elem) : XR := XR.max s (embed e)
+/-- `np.clip(arr, None, s)` -/
+def mixedMin (s : XR) (e : Elem) : XR := XR.min s (embed e)
+
+def int64Min : Int := -9223372036854775808
+
+/-- C cast double → int64 as numpy performs it: truncation toward zero; ±∞ and NaN give INT64_MIN -/
+def castInt : XR → Int
+  | .fin q => Int.tdiv q.num q.den
+  | _ => int64Min
+
+/-- cast double → bool: anything non-zero (±∞, NaN included) is True -/
+def castBool : XR → Bool
+  | .fin q => q != 0
+  | _ => true
+
+/-- the scalar lifted into the element's dtype (`np.full_like(arr, s, shape=())`) -/
+def castLike (s : XR) : Elem → Elem
+  | .f _ => .f s
+  | .i _ => .i (castInt s)
+  | .b _ => .b (castBool s)
+
+def elemMax : Elem → Elem → Elem
+  | .f x, .f y => .f (XR.max x y)
+  | .i m, .i n => .i (if m ≤ n then n else m)
+  | .b u, .b v => .b (u || v)
+  | a, _ => a
+
+def elemMin : Elem → Elem → Elem
+  | .f x, .f y => .f (XR.min x y)
+  | .i m, .i n => .i (if m ≤ n then m else n)
+  | .b u, .b v => .b (u && v)
+  | a, _ => a
+
+/-- `np.maximum(np.full_like(arr, s, shape=()), arr)`: cast the scalar first -/
+def mixedMaxCast (s : XR) (e : Elem) : XR := embed (elemMax (castLike s e) e)
+def mixedMinCast (s : XR) (e : Elem) : XR := embed (elemMin (castLike s e) e)
+
 end FV.C15
